@@ -199,7 +199,7 @@ def run(t, budget=1.0):
             blw, niw = blc[2], nic[2]
             W = data.draw(st.sampled_from([32, 32, 64]))
             a_lo = max(0, W - 8 * niw + 1)
-            a_hi = 8 * blw - 1
+            a_hi = min(8 * blw - 1, W)   # numInGroup = 2^(W-a) needs a <= W
             if a_lo > a_hi:
                 res.cls("wrap_not_expressible")
                 return
